@@ -26,9 +26,20 @@ func VerifParseTxt(txt []string) map[string]string {
 	return parseTxt(txt)
 }
 
-// VerifEntries returns a copy of the current entries.
+// VerifEntries returns a copy of the current entries, as reported to the hub.
 func (m *MdnsManager) VerifEntries() map[string]*api.MdnsEntry {
 	return m.copyMdnsEntries()
+}
+
+// VerifRawEntries returns the entries as stored (no JSON deep copy).
+func (m *MdnsManager) VerifRawEntries() map[string]*api.MdnsEntry {
+	m.mux.Lock()
+	defer m.mux.Unlock()
+	res := make(map[string]*api.MdnsEntry, len(m.entries))
+	for k, v := range m.entries {
+		res[k] = v
+	}
+	return res
 }
 
 // VerifShorten exposes the truncation of descriptive fields.
